@@ -105,6 +105,9 @@ def limits_case(ctx, form, mp, mm, cs, rng):
     nparts = len(form["parts"])
     mem = sum(len(p["content"]) for p in form["parts"] if p["filename"] is None)
     chunks = [body] if cs is None else [body[i:i + cs] for i in range(0, len(body), cs)]
+    if rng is not None and rng.random() < 0.3:  # empty chunks may arrive anywhere (an empty http.request message, a zero-length read)
+        for _ in range(rng.randrange(1, 3)):
+            chunks.insert(rng.randrange(len(chunks) + 1), b"")
     exp413 = nparts > mp or (mm is not None and mem > mm)
     got = {}
     for mode in ("sync", "async"):
